@@ -113,6 +113,14 @@ def r2_2(cx):
                             and xs.b.strip().op == 'Sub' and is_call(xs.b.strip().a, 'len') and xs.b.strip().b.is_const_int(1)
                     if _stuff_idx(y, 0) and all(last_byte(a) for a in phi_alts(x)):
                         hb = True
+            # the same test spelled input.last() == Some(&STUFF_SEQUENCE[0]) (rustc promotes the right-hand side to one
+            # constant: recognised by the byte it points to)
+            if v.kind == 'call' and v.op.endswith('::eq') and len(v.args) == 2:
+                for x, y in ((v.args[0].strip(), v.args[1].strip()), (v.args[1].strip(), v.args[0].strip())):
+                    seq = prog.const_bytes('hcobs::STUFF_SEQUENCE').hex()
+                    if is_call(x, 'last') and x.args[0].strip().kind in ('param', 'phi', 'call', 'proj', 'local') and y.kind == 'const' \
+                            and 'Option<&u8>' in str(y.info.get('ty', '')) and (y.info.get('ptr_to_bytes') or '')[:2] == seq[:2]:
+                        hb = True
     cx.check(hb, 'hold-back-test', co, None, 'maybe_mid_stuff := input[len-1] == STUFF_SEQUENCE[0]', fail_detail='the hold-back test does not compare the last byte with STUFF_SEQUENCE[0]')
     # completion test: maybe_mid_stuff & (input[0] == STUFF_SEQUENCE[1])
     comp = False
